@@ -284,3 +284,5 @@ _quick("C16", "C16_stale", "the first compaction dies right after any one of its
 _quick("C16", "C16_staletmp", "as C16_stale for the one crash image that can be produced without a crash: rewrite.aof.tmp written completely by the real findRewriteAofFiles + loadRewriteAofFiles, inputs not yet removed", ["-witness", "2"], reach=["end", "stale-tmp"])
 
 _quick("C07", "C07_shared", "two holders of a key of capacity 5, each with its own persistence timing (default / persist-immediately / never-persist), 0 or 2 s later the queue drains and the instance restarts at once: per holder, restored exactly if its own flags say it counts as persisted", ["-witness", "2"])
+
+_quick("C18", "C18_anon", "a binary connection that never sent INIT leaves a queued request and closes; another connection announces ANY client id (16 symbolic bytes); the later grant must be dropped, not delivered to it; client table empty after close", ["-witness", "1"])
